@@ -711,6 +711,119 @@ def gen_import_set(r):
 
 
 # ------------------------------------------------------------------------------------------------
+# family: diagnostics that cross a module boundary (an error in one file with a note in another; an error
+# that lies wholly in an imported file).  The two files get paddings of different lengths so that a
+# position of one file is (usually) not a position of the other.
+# ------------------------------------------------------------------------------------------------
+
+XMOD_LIB = '''[$default byte_order: "LittleEndian"]
+
+enum Kind:
+  AA = 1
+  BB = 2
+
+external Ext:
+  [addressable_unit_size: 8]
+  [fixed_size_in_bits: 32]
+
+external Picky:
+  [addressable_unit_size: 8]
+  [static_requirements: $is_statically_sized && $static_size_in_bits == 32]
+
+struct Header(n: UInt:8, k: Kind):
+  0 [+1]  UInt  length
+    [requires: this < 100]
+  let twice = length * 2
+  let four = 4
+  let flag = length > 3
+
+struct Fixed:
+  [fixed_size_in_bits: 32]
+  0 [+4]  UInt  x
+
+bits Bitty:
+  0 [+4]  UInt  lo
+  4 [+4]  UInt  hi
+'''
+
+XMOD_USES = [
+    ("static-nonconstant", "  0 [+lib.Header.twice]  UInt:8[]  payload"),
+    ("static-nonconstant-let", "  let v = lib.Header.twice + 1"),
+    ("static-nonconstant-bool", "  if lib.Header.flag:\n    0 [+1]  UInt  payload"),
+    ("static-physical", "  let v = lib.Header.length"),
+    ("static-physical-size", "  0 [+lib.Fixed.x]  UInt:8[]  payload"),
+    ("static-constant", "  0 [+lib.Header.four]  UInt:8[]  payload"),
+    ("param-count", "  0 [+1]  lib.Header(1)  h"),
+    ("param-count-0", "  0 [+1]  lib.Header  h"),
+    ("param-count-3", "  0 [+1]  lib.Header(1, lib.Kind.AA, 3)  h"),
+    ("param-type", "  0 [+1]  lib.Header(1, 2)  h"),
+    ("param-type-enum", "  0 [+1]  lib.Header(lib.Kind.AA, lib.Kind.AA)  h"),
+    ("param-type-bool", "  0 [+1]  lib.Header(true, lib.Kind.AA)  h"),
+    ("param-local-enum", "  0 [+1]  lib.Header(1, Kind.AA)  h"),
+    ("param-unneeded", "  0 [+4]  lib.Fixed(1)  f"),
+    ("explicit-size-struct", "  0 [+2]  lib.Fixed:16  f"),
+    ("explicit-size-external", "  0 [+2]  lib.Ext:16  e"),
+    ("explicit-size-array", "  0 [+4]  lib.Ext:16[2]  e"),
+    ("static-requirements", "  0 [+2]  lib.Picky  p"),
+    ("static-requirements-array", "  0 [+4]  lib.Picky:16[2]  p"),
+    ("size-mismatch", "  0 [+3]  lib.Fixed  f"),
+    ("bits-in-struct", "  0 [+2]  lib.Bitty  b"),
+    ("struct-in-bits", "  0 [+4]  bits:\n    0 [+32]  lib.Fixed  f"),
+    ("unknown-type", "  0 [+1]  lib.Nope  x"),
+    ("unknown-value", "  let v = lib.Kind.CC"),
+    ("unknown-field", "  let v = lib.Header.nope"),
+    ("unknown-alias", "  0 [+1]  other.Fixed  x"),
+    ("enum-mix", "  let v = lib.Kind.AA == Kind.AA"),
+    ("enum-choice", "  let v = true ? lib.Kind.AA : Kind.AA"),
+    ("enum-field", "  0 [+1]  lib.Kind  k\n  let v = k == Kind.AA"),
+    ("enum-as-struct", "  0 [+1]  lib.Kind(1)  k"),
+    ("requires-enum", "  0 [+1]  lib.Kind  k\n    [requires: this == 1]"),
+    ("ok", "  0 [+4]  lib.Fixed  f\n  4 [+1]  lib.Header(1, lib.Kind.BB)  h"),
+]
+
+XMOD_LIB_DEFECTS = [
+    ("lib-duplicate", "struct Fixed:\n  0 [+1]  UInt  y\n"),
+    ("lib-duplicate-field", "struct Dup:\n  0 [+1]  UInt  y\n  1 [+1]  UInt  y\n"),
+    ("lib-type-error", "struct Bad:\n  0 [+1]  UInt  y\n  let z = y + true\n"),
+    ("lib-cycle", "struct Cyc:\n  0 [+q]  UInt:8[]  p\n  let q = r\n  let r = q\n"),
+    ("lib-byte-order", "struct Ord:\n  0 [+2]  UInt  y\n    [byte_order: \"Sideways\"]\n"),
+    ("lib-attribute", "struct Att:\n  [nonsense: 1]\n  0 [+1]  UInt  y\n"),
+    ("lib-bounds", "struct Big:\n  0 [+8]  UInt  y\n  let z = y * y * 3\n"),
+    ("lib-syntax", "struct Syn:\n  0 [+1  UInt  y\n"),
+    ("lib-indent", "struct Ind:\n  0 [+1]  UInt  y\n    1 [+1]  UInt  z\n"),
+    ("lib-imports-main", None),
+]
+
+
+def gen_xmod(r, idx):
+    """(files, main): a short (or long) main module using a long (or short) library module wrongly, or a library
+    with a defect of its own; every (use, padding pattern) is reached as idx grows."""
+    n_use = len(XMOD_USES)
+    n_def = len(XMOD_LIB_DEFECTS)
+    k = idx % (n_use + n_def)
+    pad_lib, pad_main = r.choice([(r.randrange(20, 60), 0), (0, r.randrange(40, 80)), (r.randrange(0, 5), r.randrange(0, 5))])
+    pad = lambda n: "".join("# padding line %d\n" % i for i in range(n))
+    lib = pad(pad_lib) + XMOD_LIB
+    head = 'import "lib.emb" as lib\n[$default byte_order: "LittleEndian"]\n' + pad(pad_main)
+    local = "enum Kind:\n  AA = 1\n"
+    if k < n_use:
+        name, use = XMOD_USES[k]
+        extra = XMOD_USES[r.randrange(n_use)][1] if r.random() < 0.25 else None
+        body = use + ("\n" + extra.replace("payload", "payload2").replace(" v ", " v2 ").replace("  h", "  h2")
+                       .replace("  f", "  f2").replace("  p", "  p2").replace("  e", "  e2").replace("  k", "  k2")
+                       .replace("  x", "  x2").replace("  b", "  b2") if extra else "")
+        main = head + local + "struct Main:\n" + body + "\n"
+    else:
+        name, defect = XMOD_LIB_DEFECTS[k - n_use]
+        if defect is None:
+            lib = 'import "m.emb" as back\n' + lib
+        else:
+            lib = lib + "\n" + defect
+        main = head + local + "struct Main:\n  0 [+4]  lib.Fixed  f\n"
+    return {"m.emb": main, "lib.emb": lib}, "m.emb", name
+
+
+# ------------------------------------------------------------------------------------------------
 # C18: a hand-written family of accepted modules meant to touch every IR class and field spec
 # ------------------------------------------------------------------------------------------------
 
